@@ -34,9 +34,12 @@ Supported subset — nothing more:
   * calls `self.m(...)` of private methods of the class, as statements or inside conditions, wherever they are defined
     and whatever they are called: inlined (depth <= 6); parameters bound to the translated arguments or to their
     defaults; an argument that cannot be translated (a message string, …) is opaque and may only reach no-ops;
+  * the update block of run() may be an `if` or ONE call statement of a helper (`self._update_circuit(result, z_out,
+    y_out)`): the helper is inlined with its parameters bound to the request's `result` / `z_out` / `y_out` objects;
   * no-ops: console `print`, `logger.*` / `logging.*` calls, `self._record_result(...)` (audit log; checked not to
-    touch the breaker), a local bound to `LoopResult(...)` — each only when its arguments are free of calls other
-    than pure formatting (`.format`, `str`, `repr`, `type`, `len`, `.get`, `.total_seconds`, …) — and any `if` all of
+    touch the breaker), a local bound to `LoopResult(...)`, a fresh local bound to a call-free / pure-formatting
+    expression (a message looked up in a table; using it in a condition later is `unknown name`: fail closed) — each
+    only when its arguments are free of calls other than pure formatting (`.format`, `str`, `repr`, `type`, `len`, `.get`, `.total_seconds`, …) — and any `if` all of
     whose branches are no-ops and whose test is free of other calls.
 Anything else: the definition becomes `untranslatable "<construct (line)>"` (a default value), which makes its
 agreement theorem fail (fail closed).
@@ -90,6 +93,10 @@ def self_calls_in(node):
 
 class Opaque:
     """an argument the translator cannot represent (message strings …): legal only inside no-ops"""
+
+
+RUN_OBJECTS = {("result", "success"): ("success", "bool"), ("result", "blocked"): ("blocked", "bool"),
+               ("z_out", "action_type"): ("z", "cls"), ("y_out", "action_type"): ("y", "cls")}
 
 
 class Tr:
@@ -160,7 +167,7 @@ class Tr:
             return f"({v} : Nat)", "nat"
         if isinstance(v, enum.Enum) and type(v).__name__ == "CircuitState" and v.name in STATES:
             return STATES[v.name], "cstate"
-        if isinstance(v, str) and v in VERDICTS and env.get("run"):
+        if isinstance(v, str) and v in VERDICTS and (env.get("run") or env.get("objs")):
             return VERDICTS[v], "cls"
         if isinstance(v, (tuple, list, set, frozenset)):
             return [self.pyval(e, node, env) for e in (sorted(v, key=repr) if isinstance(v, (set, frozenset)) else v)], "tuple"
@@ -179,6 +186,8 @@ class Tr:
             v = env["locals"][n.id]
             if v is Opaque:
                 bad(n, f"use of the opaque argument {n.id}")
+            if v[1] == "obj":
+                bad(n, f"use of the request object {n.id} as a value")
             return v
         if is_self(n) and n.attr in FIELDS:
             lean, t = FIELDS[n.attr]
@@ -223,12 +232,15 @@ class Tr:
             if ta == tb == "nat":
                 return f"({a} + {b})", "nat"
             bad(n, f"{ta} + {tb}")
-        if env.get("run") and isinstance(n, ast.Attribute) and isinstance(n.value, ast.Name):
-            key = (n.value.id, n.attr)
-            m = {("result", "success"): ("success", "bool"), ("result", "blocked"): ("blocked", "bool"),
-                 ("z_out", "action_type"): ("z", "cls"), ("y_out", "action_type"): ("y", "cls")}
-            if key in m:
-                return m[key]
+        if isinstance(n, ast.Attribute) and isinstance(n.value, ast.Name):
+            base = n.value.id
+            loc = env["locals"].get(base)
+            if loc is not None and loc is not Opaque and loc[1] == "obj":      # a parameter bound to a request object
+                base = loc[0]
+            elif loc is not None or not env.get("run"):
+                base = None
+            if (base, n.attr) in RUN_OBJECTS:
+                return RUN_OBJECTS[(base, n.attr)]
         bad(n, f"expression {ast.unparse(n)[:60]}")
 
     def lookup(self, node, d, key, default, env):
@@ -387,6 +399,16 @@ class Tr:
             src = given.get(nm, defaults.get(nm))
             if src is None:
                 bad(call or fn, f"no value for parameter {nm}")
+            if nm in given and isinstance(src, ast.Name):
+                obj = None
+                loc = env["locals"].get(src.id)
+                if loc is not None and loc is not Opaque and loc[1] == "obj":
+                    obj = loc[0]
+                elif loc is None and env.get("run") and src.id in {k[0] for k in RUN_OBJECTS}:
+                    obj = src.id
+                if obj is not None:
+                    locs[nm] = (obj, "obj")
+                    continue
             try:
                 locs[nm] = self.val(src, env if nm in given else {"bound": {}, "locals": {}})
             except Unsupported:
@@ -411,7 +433,8 @@ class Tr:
         saved = self.mode
         self.mode, self.depth = mode, self.depth + 1
         try:
-            inner = self.body(list(fn.body), {"bound": {}, "locals": locs, "run": False}, ind + 1)
+            objs = any(v is not Opaque and v[1] == "obj" for v in locs.values())
+            inner = self.body(list(fn.body), {"bound": {}, "locals": locs, "run": False, "objs": objs}, ind + 1)
         finally:
             self.mode, self.depth = saved, self.depth - 1
         tgt = "b : Breaker" if mode == "unit" else "r : Breaker × Bool"
@@ -430,9 +453,21 @@ class Tr:
                 return False
         return True
 
-    def noop(self, st):
+    def noop(self, st, env=None):
         if isinstance(st, ast.Pass):
             return True
+        if (isinstance(st, (ast.Assign, ast.AnnAssign)) and env is not None
+                and (len(st.targets) == 1 if isinstance(st, ast.Assign) else st.value is not None)):
+            tgt = st.targets[0] if isinstance(st, ast.Assign) else st.target
+            # a FRESH local (no parameter, no earlier binding) bound to a call-free / pure-formatting expression that
+            # reads no request object: it can only feed messages; a later use in a condition is an unknown name
+            if (isinstance(tgt, ast.Name) and tgt.id not in env["locals"] and tgt.id not in {k[0] for k in RUN_OBJECTS}
+                    and not self_calls_in(st.value) and self.pure(st.value)
+                    and not any(isinstance(x, (ast.Lambda, ast.ListComp, ast.SetComp, ast.DictComp, ast.GeneratorExp,
+                                               ast.Await, ast.Yield, ast.NamedExpr)) for x in ast.walk(st.value))
+                    and not (isinstance(st.value, ast.Call) and isinstance(st.value.func, ast.Name)
+                             and st.value.func.id == "LoopResult")):
+                return True
         if isinstance(st, ast.Expr) and isinstance(st.value, ast.Constant) and isinstance(st.value.value, str):
             return True
         if isinstance(st, ast.Expr) and isinstance(st.value, ast.Call):
@@ -450,8 +485,39 @@ class Tr:
                 and all(self.pure(a) for a in st.value.args) and all(self.pure(k.value) for k in st.value.keywords)):
             return True
         if isinstance(st, ast.If) and self.pure(st.test):
-            return all(self.noop(x) for x in st.body) and all(self.noop(x) for x in st.orelse)
+            return all(self.noop(x, env) for x in st.body) and all(self.noop(x, env) for x in st.orelse)
         return False
+
+    @staticmethod
+    def loop_result(st):
+        return (isinstance(st, ast.Assign) and isinstance(st.value, ast.Call) and isinstance(st.value.func, ast.Name)
+                and st.value.func.id == "LoopResult")
+
+    def unused_later(self, st, rest):
+        """the local a dropped assignment binds is used afterwards only inside dropped statements (messages)"""
+        tgt = st.targets[0] if isinstance(st, ast.Assign) else st.target
+        if not isinstance(tgt, ast.Name):
+            return True
+
+        def uses(node):
+            return any(isinstance(x, ast.Name) and x.id == tgt.id for x in ast.walk(node))
+
+        def ok(stmts):
+            for s in stmts:
+                if not uses(s):
+                    continue
+                if isinstance(s, ast.If) and not uses(s.test):
+                    if not (ok(s.body) and ok(s.orelse)):
+                        return False
+                    continue
+                if isinstance(s, ast.With):
+                    if not ok(s.body):
+                        return False
+                    continue
+                if not (isinstance(s, ast.Expr) and isinstance(s.value, ast.Call) and self.noop(s, {"locals": {}, "bound": {}})):
+                    return False
+            return True
+        return ok(rest)
 
     def finish(self, node=None):
         if self.mode in ("unit", "update"):
@@ -465,7 +531,8 @@ class Tr:
         if not stmts:
             return pad + self.finish()
         st, rest = stmts[0], stmts[1:]
-        if self.noop(st):
+        if self.noop(st, env) and not (isinstance(st, (ast.Assign, ast.AnnAssign)) and not self.loop_result(st)
+                                       and not self.unused_later(st, rest)):
             return self.body(rest, env, ind)
         if isinstance(st, ast.With):
             if len(st.items) != 1 or not is_self(st.items[0].context_expr, "_lock") or st.items[0].optional_vars:
@@ -596,7 +663,8 @@ class Tr:
         body = list(fn.body)
         reads_flag = lambda t: any(is_self(x, "enable_circuit_breaker") for x in ast.walk(t))
         entry = [i for i, s in enumerate(body) if isinstance(s, ast.If) and reads_flag(s.test)]
-        update = [i for i, s in enumerate(body) if isinstance(s, ast.If) and i not in entry and self.touches_breaker(s)]
+        update = [i for i, s in enumerate(body) if i not in entry and self.touches_breaker(s)
+                  and (isinstance(s, ast.If) or (isinstance(s, ast.Expr) and self_call(s.value)))]
         tries = [i for i, s in enumerate(body) if isinstance(s, ast.Try)]
         info = {"body": body, "entry": entry, "update": update, "tries": tries}
         # record_failure: first statement of the handler
@@ -611,7 +679,18 @@ class Tr:
         # record_success: the other writer called in the update block
         rs = None
         if len(update) == 1:
-            names = {c.func.attr for c in self_calls_in(body[update[0]]) if c.func.attr in self.writers} - {rf}
+            # (looking through helpers that only dispatch: a method that writes no breaker field itself is expanded)
+            names, todo, seen = set(), [c.func.attr for c in self_calls_in(body[update[0]])], set()
+            while todo:
+                m = todo.pop()
+                if m in seen or m not in self.writers:
+                    continue
+                seen.add(m)
+                if m in self.direct_writers:
+                    names.add(m)
+                else:
+                    todo.extend(self.calls.get(m, ()))
+            names -= {rf}
             if len(names) == 1:
                 rs = names.pop()
         info["rs"] = rs
